@@ -1,5 +1,56 @@
 import MahfModel.Model.PopMachineWire
-open MahfModel MahfModel.PopMachine.Wire
+import MahfModel.Model.TemplatesId
+open MahfModel MahfModel.PopMachine.Wire MahfModel.Tpl Sexp
+
+/-- `(generic NAME V I ITERS SEED seq|par only-a|only-g)`: a generic loop function `heuristics::xx::xx::<P, I>`
+instantiated with `I = identifier::A` (complete configuration built as the shipped `real_*` constructor builds
+it, with `A`), run on a state that holds only `Evaluator<P, A>` (`only-a`) or only `Evaluator<P, Global>`
+(`only-g`). The implementation's output carries the run-level record of the `run` cases, the number of
+components/passes started, and the configuration's own serialised tree.
+
+K: the tree is fully known to the translator; `requireOk` of the model (evaluated on the tree) predicts
+whether the run is refused before anything executes; where every evaluator the tree names is registered the
+run ends `ok`; a finished run agrees leaf by leaf and in total with the counter model of the `run` cases.
+O: `only-a` — the requested evaluator is registered, so the run completes and the reported number of
+evaluations equals the number of objective calls; `only-g` — the requested evaluator is missing, so the run
+fails with an error before anything executes (no objective call, no component started). -/
+def c06generic (input implOut : Sexp) : Option Verdict := do
+  let args ← tagged? "generic" input
+  let mode ← match args with
+    | [_, _, _, _, _, _, .atom m] => some m
+    | _ => none
+  match implOut with
+  | .list [.list [.atom "out", .atom res], tr, ev, nc, .list [.atom "nsteps", ns], .list [.atom "tree", tree]] =>
+    let ns ← nat? ns
+    let c ← match nc with | .list [.atom "ncalls", c] => nat? c | _ => none
+    let e ← match ev with | .list [.atom "evals", e] => optNat? e | _ => none
+    let traceEmpty := match tr with | .list [.atom "trace"] => true | _ => false
+    let t := IComp.ofSexp 64 tree
+    let reg : List EvId := if mode == "only-a" then [.A] else [.Global]
+    let static := usesOnlyTop .A t
+    let known := !hasOpaque t.erase
+    let reqOk := requireOk reg t
+    let allRegistered := (evaluatorIds t).all reg.contains
+    -- the run-level verdict of the shipped templates, on the same record
+    let rv ← C06.run input (.list [.list [.atom "out", .atom (if res == "ok" then "ok" else "err")], tr, ev, nc])
+    let nothingRan := c == 0 && ns == 0 && e == none && traceEmpty
+    let predicted := if !reqOk then "err-required" else if allRegistered then "ok" else "ok-or-err"
+    let model := Sexp.list [.list [.atom "out", .atom predicted],
+      .list [.atom "uses-only-A", ofBool static],
+      .list (.atom "evaluators" :: (evaluatorIds t).map fun i => .atom i.ctorName),
+      .list (.atom "required" :: (requiredIds t).map fun i => .atom i.ctorName), rv.model]
+    let agree := known &&
+      (if !reqOk then res == "err-required" && nothingRan
+       else if allRegistered then res == "ok" && rv.agree
+       else (res == "ok" && rv.agree) || res == "err")
+    let cls :=
+      if res == "ctor-err" || res == "panic" then res
+      else if mode == "only-a" then
+        (if res != "ok" then res else if rv.holds then "-" else rv.cls)
+      else
+        (if res == "ok" then "no-error" else if !nothingRan then "executed-before-error" else "-")
+    pure { agree, holds := cls == "-", cls, model }
+  | _ => none
 
 def c06 (input implOut : Sexp) : Option Verdict :=
   match input with
@@ -7,6 +58,29 @@ def c06 (input implOut : Sexp) : Option Verdict :=
   | .list (.atom "budget" :: _) => C06.budget input implOut
   | .list (.atom "run" :: _) => C06.run input implOut
   | .list (.atom "fa" :: _) => C06.fa input implOut
+  | .list (.atom "generic" :: _) => c06generic input implOut
   | _ => none
 
-def main : IO Unit := driverMain (respond c06)
+/-- `--gen-generic`: stdin lines `(tree NAME variant TREE)` ↦ Lean source of `Generated/TemplatesGenericA.lean`. -/
+partial def genLoop (h : IO.FS.Stream) (acc : Array String) : IO (Array String) := do
+  let line ← h.getLine
+  if line.isEmpty then return acc
+  match Sexp.parse line.trimAscii.toString with
+  | some (.list [.atom "tree", .atom name, .atom v, tree]) =>
+    let c := IComp.ofSexp 64 tree
+    genLoop h (acc.push s!"def generic_{name}_v{v} : IComp := {IComp.toLean c}")
+  | _ => genLoop h acc
+
+def main (args : List String) : IO Unit := do
+  if args.contains "--gen-generic" then
+    let defs ← genLoop (← IO.getStdin) #[]
+    IO.println "/- GENERATED on every run by `harness c06 --generic-trees | drv_c06 --gen-generic` from the component trees of"
+    IO.println "   the generic loop functions `heuristics::xx::xx::<P, identifier::A>` (complete configurations, serialised"
+    IO.println "   through the code's own `Serialize`), keeping the evaluator identifier every component names. Do not edit. -/"
+    IO.println "import MahfModel.Model.TemplatesId"
+    IO.println "namespace MahfModel.Generated.GenericA"
+    IO.println "open MahfModel.Tpl"
+    for d in defs do IO.println d
+    IO.println "end MahfModel.Generated.GenericA"
+  else
+    driverMain (respond c06)
